@@ -166,6 +166,19 @@ def run(ctx):
             if not ok:
                 viol("input", {"exec": cmd, "S": S}, "0 without -S; %s with -S" % (code if code is not None else "non-zero"), "exit %d" % rc,
                      "pdsh -R exec %s sh -c %r exited %d (stderr %r)" % ("-S" if S else "", cmd, rc, e[-120:]))
+    # the same when pdsh is started by a parent that ignores SIGCHLD (the disposition is inherited across exec)
+    import signal as _signal, subprocess as _sp
+    for cmd, code in (("exit 3", 3), ("kill -9 $$", None), ("exit 0", 0)):
+        try:
+            p = _sp.run([os.path.join(real.dir, "bin", "pdsh"), "-S", "-R", "exec", "-w", "h[1-2]", "sh", "-c", cmd], env={"PATH": "/usr/bin:/bin", "HOME": "/root", "LANG": "C"},
+                        stdout=_sp.PIPE, stderr=_sp.PIPE, timeout=30, preexec_fn=lambda: _signal.signal(_signal.SIGCHLD, _signal.SIG_IGN))
+            rc, e = p.returncode, p.stderr
+        except _sp.TimeoutExpired:
+            rc, e = -999, b""
+        stats["exec_runs"] += 1
+        if not (rc == code if code is not None else rc not in (0, -999)):
+            viol("input", {"exec": cmd, "S": True, "SIGCHLD": "ignored when pdsh starts"}, "%s" % (code if code is not None else "non-zero"), "exit %d" % rc,
+                 "pdsh -S -R exec sh -c %r, started with SIGCHLD ignored, exited %d (stderr %r)" % (cmd, rc, e[-160:]))
     # a command that closes its three streams early, outlives the command timeout and one watchdog period, then fails: its
     # status still counts (the time-out applies to a command that is still being read, not to one that is being reaped)
     for cmd, code in (("exec 0<&- 1>&- 2>&-; sleep 4; exit 3", 3),) + (() if quick else (("exec 0<&- 1>&- 2>&-; sleep 5; kill -9 $$", None),)):
